@@ -246,6 +246,82 @@ type checkOutcome struct {
 	inconclusive []string
 }
 
+var solverUsed = "z3"
+
+func solverDesc() string {
+	switch solverUsed {
+	case "z3-new":
+		return "z3 5.1.0 (z3-new) over one pipe per worker (push/pop)"
+	case "cvc5":
+		return "cvc5 1.0 --incremental over one pipe per worker (push/pop)"
+	}
+	return "z3 4.8.12 over one pipe per worker (push/pop)"
+}
+
+// xsolverMain runs the jobs of a property under each installed solver and
+// compares, job by job, the counters that depend on solver answers (paths,
+// completed paths, assume-ended paths, assertions, discharged assertions,
+// failing witnesses, unknown answers). Writes no evidence.
+func xsolverMain(args []string) int {
+	fs := flag.NewFlagSet("xsolver", flag.ExitOnError)
+	tier := fs.String("tier", "quick", "quick|thorough")
+	workers := fs.Int("j", 16, "workers")
+	only := fs.String("only", "", "run only jobs whose name contains this")
+	solvers := fs.String("solvers", "z3,z3-new,cvc5", "comma separated")
+	fs.Parse(args)
+	rc := 0
+	for _, id := range fs.Args() {
+		pd := props[id]
+		if pd == nil {
+			fmt.Fprintln(os.Stderr, "unknown property", id)
+			return 2
+		}
+		P, err := interp.Load(envOr("VERIF_REPO", "/repo"), module, envOr("VERIF_HARNESS", filepath.Join(verifDir, "harness")), loadPkgs())
+		if err != nil {
+			fmt.Fprintln(os.Stderr, err)
+			return 2
+		}
+		specs := pd.Jobs(*tier, 0)
+		if *only != "" {
+			var f []interp.JobSpec
+			for _, s := range specs {
+				if strings.Contains(s.Name(), *only) {
+					f = append(f, s)
+				}
+			}
+			specs = f
+		}
+		type row struct{ paths, completed, assumed, asserts, disch, fails, unknown int }
+		var base map[string]row
+		baseName := ""
+		for _, sv := range strings.Split(*solvers, ",") {
+			t0 := time.Now()
+			jobs := P.RunJobs(specs, *workers, sv)
+			cur := map[string]row{}
+			unk := 0
+			for _, j := range jobs {
+				cur[j.Spec.Name()] = row{j.Paths, j.Completed, j.AssumeEnded, j.Asserts, j.Discharged, len(j.Fails), j.SolverUnknown}
+				unk += j.SolverUnknown
+			}
+			fmt.Printf("XSOLVER %s solver=%s jobs=%d unknown=%d wall=%.1fs\n", id, sv, len(jobs), unk, time.Since(t0).Seconds())
+			if base == nil {
+				base, baseName = cur, sv
+				continue
+			}
+			for n, r := range cur {
+				if b := base[n]; b != r {
+					fmt.Printf("XSOLVER-DIFF %s job=%s %s=%+v %s=%+v\n", id, n, baseName, b, sv, r)
+					rc = 1
+				}
+			}
+		}
+	}
+	if rc == 0 {
+		fmt.Println("XSOLVER all solvers agree on every job")
+	}
+	return rc
+}
+
 func checkMain(args []string) int {
 	fs := flag.NewFlagSet("check", flag.ExitOnError)
 	tier := fs.String("tier", envOr("VERIF_TIER", "quick"), "quick|thorough")
@@ -260,6 +336,7 @@ func checkMain(args []string) int {
 		return 2
 	}
 	id := fs.Arg(0)
+	solverUsed = *solver
 	if *tier != "quick" && *tier != "thorough" {
 		*tier = "quick"
 	}
@@ -602,7 +679,7 @@ func writeEvidence(pd *propDef, tier string, seed int64, jobs []*interp.Job, ws 
 		"unsat":                         unsat,
 		"unknown":                       unknown,
 		"solver_time_s":                 stime.Seconds(),
-		"solver":                        "z3 4.8.12 over one pipe per worker (push/pop)",
+		"solver":                        solverDesc(),
 		"assertions":                    asserts,
 		"assertions_discharged_unsat":   disch,
 		"truncated_paths":               trunc,
